@@ -739,3 +739,83 @@ pub fn c06struct(a: &Args) -> Report {
     }
     rep
 }
+
+
+// ------------------------------------------------------------------------------------ vprobe emit
+
+/// Write the crates compiled by the real toolchain: `bad` = every single item and every same-key
+/// pair of the attribute grammar as #[derive(Logos)] inputs (rustc must report errors, never a
+/// proc-macro panic); `good` = valid definitions that must compile.
+pub fn probe_emit(a: &Args) {
+    use std::fmt::Write as _;
+    let dir = a.out.clone();
+    let all = c19_cases(a.tier);
+    let keep_desc = ["token args", "regex args", "skip args", "bare attr", "attr = lit", "enum-level bare attr", "regex pattern", "regex pattern allow_greedy", "skip pattern", "subpattern body", "logos item", "variant x generics", "variant x generics (regex cb)", "variant no attr", "empty enum", "no patterns", "only skip", "def args x variant"];
+    let mut cases: Vec<C19Case> = all.iter().filter(|c| keep_desc.contains(&c.desc.as_str())).cloned().collect();
+    // same-key pairs (the ones whose handling involves a second span: "previous definition here", Span::join)
+    let key = |t: &str| t.split(|c: char| !c.is_alphanumeric() && c != '_').next().unwrap_or("").to_string();
+    let lf = logos_frags();
+    for x in &lf {
+        for y in &lf {
+            if !key(&x.text).is_empty() && key(&x.text) == key(&y.text) {
+                cases.push(C19Case { desc: "same-key logos pair (one attribute)".into(), src: format!("#[logos({}, {})] enum T {{ #[token(\"z\")] Z }}", x.text, y.text), must_reject: None });
+                cases.push(C19Case { desc: "same-key logos pair (two attributes)".into(), src: format!("#[logos({})] #[logos({})] enum T {{ #[token(\"z\")] Z }}", x.text, y.text), must_reject: None });
+            }
+        }
+    }
+    let named = ["priority = 3", "callback = f", "callback = |lex| 1", "ignore(case)", "allow_greedy = true", "f", "|lex| 2"];
+    for x in named {
+        for y in named {
+            for attr in ["token", "regex"] {
+                cases.push(C19Case { desc: "same-key def args pair".into(), src: format!("enum T {{ #[{attr}(\"a\", {x}, {y})] A }}"), must_reject: None });
+            }
+            cases.push(C19Case { desc: "same-key def args pair (skip)".into(), src: format!("#[logos(skip(\"a\", {x}, {y}))] enum T {{ #[token(\"z\")] Z }}"), must_reject: None });
+            cases.push(C19Case { desc: "same-key error args pair".into(), src: format!("#[logos(error(E, {x}, {y}))] enum T {{ #[token(\"z\")] Z }}"), must_reject: None });
+        }
+    }
+    let mut seen = BTreeSet::new();
+    cases.retain(|c| seen.insert(c.src.clone()) && syn_item_enum_ok(&c.src));
+    let mut lib = String::from("#![allow(warnings)]\n");
+    let mut index = vec![];
+    let mut line = 2usize;
+    for (n, c) in cases.iter().enumerate() {
+        let body = format!("mod c{n} {{\n    use logos::Logos;\n    #[derive(Logos)]\n    {}\n}}\n", c.src.replace('\n', " "));
+        let nl = body.matches('\n').count();
+        index.push(json!({"n": n, "line_start": line, "line_end": line + nl - 1, "src": c.src, "desc": c.desc, "must_reject": c.must_reject}));
+        line += nl;
+        lib.push_str(&body);
+    }
+    std::fs::create_dir_all(format!("{dir}/bad/src")).unwrap();
+    std::fs::write(format!("{dir}/bad/src/lib.rs"), lib).unwrap();
+    std::fs::write(format!("{dir}/bad/cases.json"), serde_json::to_string(&index).unwrap()).unwrap();
+    // ---- good crate: curated definitions through the real derive (must compile), plus logos-cli style outputs
+    let mut good = String::from("#![allow(warnings)]\n");
+    let mut gindex = vec![];
+    for (n, (name, spec, _)) in vcore::curated::curated().into_iter().enumerate() {
+        let _ = writeln!(good, "pub mod g{n} {{\n    use logos::Logos;\n    {}\n}}", spec.render("T", "Logos, Debug, Clone, Copy, PartialEq").replace('\n', "\n    "));
+        gindex.push(json!({"n": n, "name": name}));
+    }
+    // valid definitions with callbacks / extras / error types / generics
+    let extras = [
+        "#[derive(Logos, Debug, PartialEq)] #[logos(extras = u32, error = String)] pub enum T<'s> { #[regex(\"[a-z]+\", |lex| { lex.extras += 1; lex.slice() })] W(&'s str), #[regex(\"[0-9]+\", |lex| lex.slice().parse().map_err(|_| String::from(\"bad\")))] N(u64), #[token(\" \", logos::skip)] S }",
+        "#[derive(Logos, Debug, PartialEq)] #[logos(skip \" \", utf8 = false)] pub enum T { #[token(b\"\\xff\")] F, #[regex(b\"[a-z]+\", priority = 3, ignore(case))] W }",
+        "#[derive(Logos, Debug, PartialEq)] #[logos(subpattern d = \"[0-9]\", skip(\" +\", priority = 9))] pub enum T { #[regex(\"(?&d)+\", ignore(case), priority = 4)] N, #[token(\"x\", ignore(case), priority = 10)] X }",
+        "#[derive(Logos, Debug, PartialEq, Clone, Default)] pub enum E { #[default] D } #[derive(Logos, Debug, PartialEq)] #[logos(error(E, callback = |lex| E::D))] pub enum T { #[token(\"a\")] A }",
+    ];
+    for (k, e) in extras.iter().enumerate() {
+        let _ = writeln!(good, "pub mod x{k} {{\n    use logos::Logos;\n    {e}\n}}");
+    }
+    std::fs::create_dir_all(format!("{dir}/good/src")).unwrap();
+    std::fs::write(format!("{dir}/good/src/lib.rs"), good).unwrap();
+    std::fs::write(format!("{dir}/good/cases.json"), serde_json::to_string(&gindex).unwrap()).unwrap();
+    eprintln!("probe-emit: {} derive inputs in bad/, {} modules in good/", cases.len(), gindex.len() + extras.len());
+}
+
+fn syn_item_enum_ok(src: &str) -> bool {
+    // rustc must be able to parse the item, otherwise the whole crate fails before expansion
+    src.parse::<proc_macro2::TokenStream>().is_ok() && vdrive_parse_enum(src)
+}
+
+fn vdrive_parse_enum(src: &str) -> bool {
+    syn::parse_str::<syn::File>(src).map_or(false, |f| f.items.iter().all(|i| matches!(i, syn::Item::Enum(_))))
+}
